@@ -956,6 +956,16 @@ fn c20_timeouts(out: &mut Out) {
 }
 
 pub fn c20(thorough: bool, rng: &mut Rng, out: &mut Out) {
+    // every way of obtaining a bus or a bridge sets its port up: constructors that come from traits (`Default`,
+    // `From<port>`) are probed for at compile time and, where the library as built has one, held to the same result
+    for which in ["odk-default", "serial-default", "serial-from", "odk-from"] {
+        let i = out.case(format!("portctor {}", which), true);
+        out.stat("port.trait-constructors");
+        if out.impls[i] != "fine" {
+            let got = out.impls[i].clone();
+            out.fail(i, format!("C20 a transport object obtained through {} holds a port that was never set up: '{}'", which, got));
+        }
+    }
     c20_error_kinds(thorough, out);
     c20_timeouts(out);
     // a settings object that cannot name the device's current state (every getter returns None): all five fields are
